@@ -164,9 +164,12 @@ def unsplit (scheme netloc path query fragment : Str) : Str :=
 
 def gemini : Str := ['g', 'e', 'm', 'i', 'n', 'i']
 
-/-- `f"[{hostname}]" if ":" in hostname else hostname`: an IP literal containing `:` stays bracketed
-    in the normalised string (an IPvFuture literal without `:` loses its brackets) -/
-def rebracket (host : Str) : Str := if host.contains ':' then '[' :: (host ++ [']']) else host
+/-- the host part of the authority: `netloc.rpartition("@")[2]` -/
+def hostPart (netloc : Str) : Str := match rsplitOnce '@' netloc with | some (_, h) => h | none => netloc
+
+/-- `f"[{hostname}]" if "[" in netloc.rpartition("@")[2] else hostname`: a host that was written as an
+    IP literal (IPv6 or IPvFuture) stays bracketed in the normalised string -/
+def rebracket (netloc host : Str) : Str := if (hostPart netloc).contains '[' then '[' :: (host ++ [']']) else host
 
 /-- the checks `parse_url` applies to the split result, in its order -/
 def parseSplit (env : Env) (sp : Split) : Except Err Parsed :=
@@ -182,7 +185,7 @@ def parseSplit (env : Env) (sp : Split) : Except Err Parsed :=
         | .ok port? =>
           let port := port?.getD 1965
           let path := if sp.path.isEmpty then ['/'] else sp.path
-          let nl := if port ≠ 1965 then rebracket host ++ [':'] ++ natToStr port else rebracket host
+          let nl := if port ≠ 1965 then rebracket sp.netloc host ++ [':'] ++ natToStr port else rebracket sp.netloc host
           .ok { host, port, path, query := sp.query, normalized := unsplit gemini nl path sp.query sp.fragment }
 
 def parseUrl (env : Env) (url : Str) : Except Err Parsed :=
